@@ -56,6 +56,7 @@ type HSpec struct {
 	Progs    []PGSpec
 	Comments []string
 	LongComment int // if >0: one more comment line of this many bytes (lines longer than 64 KiB)
+	Via         int // construction route: 0 Add* calls; 1 references handed to NewHeader; 2 parsed from its own text; 3 Clone; 4 decoded from its own binary form
 }
 
 func tag2(s string) sam.Tag { return sam.Tag{s[0], s[1]} }
@@ -115,9 +116,50 @@ func BuildPG(p PGSpec) (*sam.Program, error) {
 	return pg, nil
 }
 
-// Build constructs the header through the public API.
+// Build constructs the header through the public API, by the route s.Via names.
 func (s HSpec) Build() (*sam.Header, error) {
-	h, err := sam.NewHeader(nil, nil)
+	h, err := s.build()
+	if err != nil {
+		return nil, err
+	}
+	switch s.Via {
+	case 2:
+		text, err := h.MarshalText()
+		if err != nil {
+			return nil, err
+		}
+		return sam.NewHeader(text, nil)
+	case 3:
+		return h.Clone(), nil
+	case 4:
+		b, err := h.MarshalBinary()
+		if err != nil {
+			return nil, err
+		}
+		d, err := sam.NewHeader(nil, nil)
+		if err != nil {
+			return nil, err
+		}
+		if err := d.UnmarshalBinary(b); err != nil {
+			return nil, err
+		}
+		return d, nil
+	}
+	return h, nil
+}
+
+func (s HSpec) build() (*sam.Header, error) {
+	var given []*sam.Reference
+	if s.Via == 1 {
+		for _, r := range s.Refs {
+			ref, err := BuildRef(r)
+			if err != nil {
+				return nil, err
+			}
+			given = append(given, ref)
+		}
+	}
+	h, err := sam.NewHeader(nil, given)
 	if err != nil {
 		return nil, err
 	}
@@ -130,6 +172,9 @@ func (s HSpec) Build() (*sam.Header, error) {
 		}
 	}
 	for _, r := range s.Refs {
+		if s.Via == 1 {
+			break
+		}
 		ref, err := BuildRef(r)
 		if err != nil {
 			return nil, err
@@ -248,6 +293,7 @@ func HSpecGen(minRefs, maxRefs int) *rapid.Generator[HSpec] {
 			s.Progs = append(s.Progs, p)
 		}
 		s.Comments = rapid.SliceOfN(valGen, 0, 3).Draw(t, "comments")
+		s.Via = rapid.SampledFrom([]int{0, 0, 0, 1, 1, 2, 3, 4}).Draw(t, "via")
 		if rapid.IntRange(0, 24).Draw(t, "longline") == 0 {
 			s.LongComment = rapid.SampledFrom([]int{4090, 65530, 65536, 70000}).Draw(t, "longcomment")
 		}
